@@ -382,3 +382,66 @@ def whole_object_cover(prog, cls_name):
         for fl in fields_of(prog, c):
             cov.add(fl["q"])
     return cov
+
+
+# ---------- bounded-buffer taint (analysis G) ----------
+
+TAINT_SOURCES = {"Pistache::StreamCursor::offset", "Pistache::StreamCursor::Token::rawText", "Pistache::StreamBuf::curptr", "Pistache::StreamBuf::begptr",
+                 "Pistache::StreamBuf::endptr", "std::basic_streambuf::gptr", "std::basic_streambuf::egptr", "std::basic_streambuf::eback"}
+# NUL-scanning entry points: they read until a terminator the bounded buffer does not have
+UNBOUNDED_SINKS = {"strtol", "strtoul", "strtoll", "strtoull", "strtod", "strtof", "strtold", "atoi", "atol", "atoll", "atof", "strcmp", "strcasecmp", "strcoll",
+                   "strlen", "strchr", "strrchr", "strstr", "strpbrk", "strspn", "strcspn", "strcpy", "strcat", "strdup", "sscanf", "puts", "std::strtol",
+                   "std::strtoul", "std::strtod", "std::strcmp", "std::strlen", "std::strchr", "std::strstr", "std::atoi", "std::atol", "std::stoi",
+                   "std::stol", "std::stoul", "std::stoull", "std::stod", "std::stof"}
+BOUNDED_SINKS = {"strncmp", "strncasecmp", "memcmp", "memcpy", "memchr", "memmove", "std::strncmp", "std::memcmp", "std::memcpy", "strnlen"}
+RAW_PARAM_FUNCS = ("parseRaw", "fromRaw", "addFromRaw")
+
+
+def tainted_vars(func):
+    """Local pointer variables (name, decl position) that point into a bounded, non NUL-terminated buffer."""
+    t = set()
+    ps = func.params
+    if func.base.rsplit("::", 1)[-1] in RAW_PARAM_FUNCS:
+        for i, p in enumerate(ps[:-1]):
+            if p["type"].replace(" ", "") in ("constchar*", "char*") and "size_t" in ps[i + 1]["type"]:
+                t.add(p["name"])
+    changed = True
+    while changed:
+        changed = False
+        for d in func.events("decl"):
+            if d["var"] in t or "*" not in (d.get("type") or ""):
+                continue
+            init = d.get("init") or {}
+            src = strip_tmpl(d.get("icall") or "") in TAINT_SOURCES or init.get("root") in t or any(("v:" + v) in (d.get("refs") or []) for v in t) \
+                or any(("c:" + s) in [strip_tmpl(r) for r in (d.get("refs") or [])] for s in TAINT_SOURCES)
+            if src:
+                t.add(d["var"])
+                changed = True
+    return t
+
+
+def arg_is_tainted(a, tvars):
+    if a.get("v") in tvars or a.get("root") in tvars:
+        return True
+    txt = a.get("t") or ""
+    return any(s.rsplit("::", 1)[1] + "(" in txt and (".offset(" in txt or ".rawText(" in txt or "gptr(" in txt or "curptr(" in txt) for s in TAINT_SOURCES)
+
+
+def taint_flows(func):
+    """Yield (event, sink-name, argument-text, bounded?) for every use of a bounded-buffer pointer in a libc / std::string sink."""
+    tv = tainted_vars(func)
+    for e in func.events(("call", "construct")):
+        if e["k"] == "call":
+            c = e.get("callee") or ""
+            if c in UNBOUNDED_SINKS or c in BOUNDED_SINKS:
+                for a in e.get("args", []):
+                    if arg_is_tainted(a, tv):
+                        yield e, c, a.get("t"), c in BOUNDED_SINKS
+                        break
+        else:
+            cls = strip_tmpl(e.get("cls") or "")
+            if cls == "std::basic_string":
+                args = e.get("args") or []
+                real = [a for a in args if not a.get("dflt")]
+                if real and arg_is_tainted(real[0], tv):
+                    yield e, "std::string(const char*%s)" % (", n" if len(real) >= 2 else ""), real[0].get("t"), len(real) >= 2
